@@ -267,6 +267,17 @@ def gen_arith(ctx):
             bulk = max(1, (total + rng.randrange(0, 10**6)) // rng.randrange(1, 250))
         pct = rng.choice([100.0, 100.0, 50.0, 10.0, 2.5, 0.1, 33.3, 99.9, 12.5, 1e-3, 7.000000000000001, rng.random() * 100 or 1.0,
                           float(rng.randrange(1, 101))])
+        if rng.random() < 0.25:  # integral percentage and a number of bulks that makes all*p/100 an integer (or nearly)
+            pi = rng.choice([7, 14, 28, 55, 56, 68, 3, 29, 57, 58, 1, 99, rng.randrange(1, 100)])
+            g = math.gcd(pi, 100)
+            nbw = (100 // g) * rng.randrange(1, max(2, 280 // (pi // g) + 1)) + rng.choice([0, 0, 0, 1])
+            n, bulk = rng.choice([1, 2, 5]), rng.choice([1, 3, 10])
+            total = nbw * bulk
+            ends = [n - 1]
+            pct = float(pi)
+            yield {"total": total, "n": n, "ends": ends, "meta": rng.random() < 0.4, "bulk": bulk, "pct": fs(pct),
+                   "total2": 0, "meta2": False}
+            continue
         if rng.random() < 0.3:  # all*p/100 on or next to an integer: the two float roundings may cross it
             nb = rng.randrange(1, 400)
             pct = 100.0 * rng.randrange(1, nb + 1) / nb
@@ -509,13 +520,56 @@ def drive_worker(rng, src, s, e, n, max_calls):
             c = rng.choice(active)
         k += 1
         calls.append(c)
+        # ScheduleHandle.__call__ (parameter source decides when to stop): progress first, then the parameters
+        if hasattr(type(part), "percent_completed"):  # (hasattr on the instance would evaluate the property)
+            try:
+                part.percent_completed
+            except ZeroDivisionError:
+                return order, calls, events, False, ZERO_DIV
         try:
             p = part.params()
             events.append((c, p))
         except StopIteration:
             events.append((c, None))
             active.remove(c)
-    return order, calls, events, bool(active)
+    return order, calls, events, bool(active), None
+
+
+ZERO_DIV = "ZeroDivisionError:percent_completed"
+
+
+def report_zero_division(ctx, where):
+    ctx.fail("empty-share-group-zero-division",
+             "a co-located client of a group whose share of the corpus is empty fails with ZeroDivisionError in percent_completed "
+             "(total_bulks = 0 after another client initialised the group): the race aborts", "StopIteration for every client of the group", where)
+
+
+def reference_bulks(src, s, e, n, limit):
+    """all bulks of the group s..e at the source's percentage, asked for by one client after the other"""
+    part = None
+    for c in range(s, e + 1):
+        part = src.partition(c, n)
+    out = []
+    while len(out) <= limit:
+        try:
+            out.append(part.params())
+        except StopIteration:
+            break
+    return out
+
+
+def check_stop_count(ctx, ref, got, pctf, compare_bodies):
+    """direct oracle of the ingest-percentage clause: the group issues exactly the first ceil(p%) of its bulks
+    (`ref` = its bulks at 100 %).  The code computes all*p/100 in doubles: a result one off the exact ceiling is only
+    accepted when the product all*p is not exactly representable (see total_bulks_vs_exact_ceiling)."""
+    nb = len(ref)
+    exact = math.ceil(Fraction(nb) * pctf / 100)
+    prod_exact = Fraction(nb * float(pctf)) == Fraction(nb) * pctf
+    if abs(len(got) - exact) > 1 or (prod_exact and len(got) != exact) or len(got) > nb:
+        ctx.fail("stop-count", "a group of co-located clients did not stop after the first ceil(p%) of its bulks",
+                 {"bulks_at_100": nb, "expected": exact}, len(got))
+    elif compare_bodies and [p["body"] for p in got] != [p["body"] for p in ref[: len(got)]]:
+        ctx.fail("not-a-prefix", "the bulks issued under an ingest percentage are not the first bulks of the group", None, None)
 
 
 def run_files(ctx, case):
@@ -580,8 +634,9 @@ def run_files(ctx, case):
             with patched_random(rec):
                 src = params.BulkIndexParamSource(track.Track(name="t", corpora=rc), worker_params(case))
                 limit = 3 * (total_docs + 5) + 50
+                crash = None
                 try:
-                    order, calls, events, unfinished = drive_worker(rng, src, s, e, n, limit if not case.get("looped") else min(limit, 60))
+                    order, calls, events, unfinished, crash = drive_worker(rng, src, s, e, n, limit if not case.get("looped") else min(limit, 60))
                     err = None
                 except (exceptions.RallyError, IndexError, ZeroDivisionError) as ex:
                     err = type(ex).__name__
@@ -595,6 +650,12 @@ def run_files(ctx, case):
                 outcome = err
                 if m.get("err") != err:
                     ctx.diff("worker-error", m, err)
+                continue
+            if crash is not None:
+                outcome = crash
+                if m.get("err") != crash:
+                    ctx.diff("worker-error", m, crash)
+                report_zero_division(ctx, {"clients": [s, e], "of": n, "calls": calls})
                 continue
             if "err" in m:
                 ctx.diff("worker-error", m, "no error")
@@ -666,16 +727,17 @@ def run_files(ctx, case):
                     ctx.fail("slice-not-contiguous", "a worker's documents of one file are not a contiguous range in file order", None, {"file": f, "positions": poss[:12]})
             # per-worker stop count (ingest percentage)
             if not case.get("looped"):
-                corp_objs = [rc[i] for i in keep]
-                nb = params.number_of_bulks(corp_objs, s, e, n, case["bulk"])
                 pctf = Fraction(case["pct"])
-                exact = math.ceil(Fraction(nb) * pctf / 100)
-                prod_exact = Fraction(nb * float(pctf)) == Fraction(nb) * pctf
-                got = len(real_bulks)
-                if abs(got - exact) > 1 or (prod_exact and got != exact):
-                    ctx.fail("stop-count", "a worker group did not stop after ceil(p%) of its bulks", exact, got)
-                if m["r"]["total_bulks"] != got and nb >= got:
-                    ctx.diff("total_bulks", m["r"]["total_bulks"], got)
+                if pctf == 100:
+                    ref = [p for _, p in real_bulks]
+                else:
+                    # "its bulks" = what the same group issues without a percentage (independent of number_of_bulks)
+                    with patched_random(Rec(random.Random(case["seed"] + 1), prob_float)):
+                        ref_src = params.BulkIndexParamSource(track.Track(name="t", corpora=rc), dict(worker_params(case), **{"ingest-percentage": 100}))
+                        ref = reference_bulks(ref_src, s, e, n, limit)
+                check_stop_count(ctx, ref, [p for _, p in real_bulks], pctf, case["conflicts"] == "none")
+                if m["r"]["total_bulks"] != len(real_bulks) and len(ref) >= len(real_bulks):
+                    ctx.diff("total_bulks", m["r"]["total_bulks"], len(real_bulks))
             # fresh ids are emitted once and in list order; conflict ids ⊆ earlier ids (checked above)
             for seen_ids in seen.values():
                 if case["conflicts"] == "sequential" and seen_ids != sorted(seen_ids):
@@ -1072,9 +1134,280 @@ def run_malformed(ctx, case):
         shutil.rmtree(tmp, ignore_errors=True)
 
 
+
+# ---------------------------------------------------------------------------------------------
+# stream: race — Allocator -> worker assignment -> schedule_for -> partition -> ScheduleHandle
+# ---------------------------------------------------------------------------------------------
+def gen_race(ctx):
+    rng = ctx.rng
+    for _ in range(ctx.budget):
+        corpora = []
+        for _ in range(rng.choice([1, 1, 2])):
+            files = []
+            for _ in range(rng.choice([1, 1, 2])):
+                meta = rng.random() < 0.3
+                files.append({"docs": rng.choice([1, 2, 5, 9, 13, 24, 37, 40, 64, rng.randrange(0, 70)]), "meta": meta,
+                              "style": rng.choice(["ascii", "utf8", "utf8", "padded"]), "nl": rng.random() < 0.8, "ds": False,
+                              "type": rng.random() < 0.2})
+            if all(f["docs"] == 0 for f in files):
+                files[0]["docs"] = 7
+            corpora.append(files)
+        schedule = []
+        n_bulk = 0
+        for _ in range(rng.choice([1, 1, 2, 3])):
+            def bulk_task():
+                bulk = rng.choice([1, 2, 3, 4, 5, 10])
+                pct = rng.choice([100.0] * 5 + [50.0, 25.0, 40.0, 10.0, 75.0, 7.0, 33.3, float(rng.randrange(1, 100))])
+                return {"kind": "bulk", "clients": rng.choice([1, 2, 2, 3, 4, 5, 8]), "bulk": bulk, "batch": bulk * rng.choice([1, 1, 2]),
+                        "pct": fs(pct), "corpus": rng.choice([None, None, rng.randrange(len(corpora))])}
+
+            def other_task():
+                return {"kind": "other", "clients": rng.choice([1, 1, 2, 3]), "iterations": rng.choice([1, 2, 3])}
+
+            if rng.random() < 0.65:
+                tasks = [bulk_task() if rng.random() < 0.6 else other_task() for _ in range(rng.choice([1, 2, 2, 3]))]
+                total = sum(t["clients"] for t in tasks)
+                r = rng.random()
+                clients = None if r < 0.6 else (rng.randrange(1, total + 1) if r < 0.9 else total + rng.randrange(1, 3))
+                schedule.append({"parallel": True, "clients": clients, "tasks": tasks})
+            else:
+                schedule.append({"parallel": False, "clients": None, "tasks": [bulk_task() if rng.random() < 0.8 else other_task()]})
+            n_bulk += sum(1 for t in schedule[-1]["tasks"] if t["kind"] == "bulk")
+        if n_bulk == 0:
+            schedule.append({"parallel": True, "clients": None, "tasks": [
+                {"kind": "bulk", "clients": 3, "bulk": 4, "batch": 4, "pct": "100/1", "corpus": None},
+                {"kind": "other", "clients": rng.choice([1, 2]), "iterations": 1}]})
+        hosts = [rng.choice([1, 1, 2, 3, 4, 8]) for _ in range(rng.choice([1, 1, 2]))]
+        yield {"corpora": corpora, "schedule": schedule, "hosts": hosts, "seed": rng.randrange(1 << 30)}
+
+
+_RUNNERS_REGISTERED = False
+
+
+def build_schedule(case, rc, force_full):
+    """the real track.Task / track.Parallel objects of the case; returns (schedule, {task name: its description})"""
+    from esrally import track
+
+    sched, desc = [], {}
+    k = 0
+    for el in case["schedule"]:
+        tasks = []
+        for t in el["tasks"]:
+            name = f"task{k}"
+            k += 1
+            if t["kind"] == "bulk":
+                pr = {"bulk-size": t["bulk"], "batch-size": t["batch"], "ingest-percentage": 100.0 if force_full else float(Fraction(t["pct"]))}
+                if t["corpus"] is not None:
+                    pr["corpora"] = rc[t["corpus"]].name
+                op = track.Operation(name + "-op", track.OperationType.Bulk.to_hyphenated_string(), params=pr)
+                tasks.append(track.Task(name, op, clients=t["clients"]))
+            else:
+                op = track.Operation(name + "-op", track.OperationType.Sleep.to_hyphenated_string(), params={"duration": 0})
+                tasks.append(track.Task(name, op, clients=t["clients"], iterations=t["iterations"]))
+            desc[name] = t
+        if el["parallel"]:
+            sched.append(track.Parallel(tasks, clients=el["clients"]))
+        else:
+            sched.append(tasks[0])
+    return sched, desc
+
+
+def execute_schedule(rng, t, schedule, hosts, limit):
+    """What Driver / Worker / AsyncIoAdapter.run do with a schedule, without actors and network: allocation matrix,
+    worker assignment, per worker and step one parameter source per task, `schedule_for` per co-located client, then the
+    ScheduleHandle generators of the co-located clients are advanced in a random interleaving until all are exhausted.
+    Returns {(worker, column, task name): {"entries": [...], "events": [(client_index_in_task, params | None)], ...}}."""
+    import asyncio
+
+    from esrally import track
+    from esrally.driver import driver
+
+    allocator = driver.Allocator(schedule)
+    allocations = allocator.allocations
+    assignments = driver.calculate_worker_assignments([{"host": f"h{i}", "cores": c} for i, c in enumerate(hosts)], allocator.clients)
+    groups = {}
+    wno = -1
+
+    async def drain(handles):
+        gens = []
+        for key, idx, h in handles:
+            h.start()
+            gens.append((key, idx, h()))
+        active = list(range(len(gens)))
+        style = rng.choice(["random", "random", "round-robin", "one-first"])
+        steps = 0
+        while active and steps < limit:
+            if style == "round-robin":
+                i = active[steps % len(active)]
+            elif style == "one-first":
+                i = active[0] if rng.random() < 0.9 else rng.choice(active)
+            else:
+                i = rng.choice(active)
+            steps += 1
+            key, idx, g = gens[i]
+            try:
+                item = await g.__anext__()
+                groups[key]["events"].append((idx, item[4]))
+            except StopAsyncIteration:
+                groups[key]["events"].append((idx, None))
+                active.remove(i)
+            except ZeroDivisionError as ex:
+                import traceback
+
+                if traceback.extract_tb(ex.__traceback__)[-1].name != "percent_completed":
+                    raise
+                # asyncio.gather in AsyncIoAdapter.run fails: the whole step of this worker is over
+                groups[key]["events"].append((idx, ZERO_DIV))
+                groups[key]["crash"] = True
+                for j in active:
+                    await gens[j][2].aclose()
+                return True
+        for i in active:
+            groups[gens[i][0]]["unfinished"] = True
+            await gens[i][2].aclose()
+        return False
+
+    for assignment in assignments:
+        for clients in assignment["workers"]:
+            wno += 1
+            if not clients:
+                continue
+            ca = driver.ClientAllocations()
+            for client_id in clients:
+                ca.add(client_id, allocations[client_id])
+            for column in range(len(allocations[0])):
+                if ca.is_joinpoint(column):
+                    continue
+                params_per_task = {}
+                handles = []
+                for client_id, ta in ca.tasks(column):
+                    task = ta.task
+                    if task not in params_per_task:
+                        params_per_task[task] = track.operation_parameters(t, task)
+                    key = (wno, column, task.name)
+                    grp = groups.setdefault(key, {"entries": [], "events": [], "unfinished": False, "task": task})
+                    grp["entries"].append([ta.client_index_in_task, task.clients, ta.total_clients, ta.global_client_index])
+                    handles.append((key, ta.client_index_in_task, driver.schedule_for(ta, params_per_task[task])))
+                if asyncio.run(drain(handles)):
+                    return groups, len(assignments), wno + 1, True   # the worker reports the failure, the race is aborted
+    return groups, len(assignments), wno + 1, False
+
+
+def run_race(ctx, case):
+    import collections
+    import random
+
+    from esrally import track
+    from esrally.driver import runner
+
+    global _RUNNERS_REGISTERED
+    if not _RUNNERS_REGISTERED:
+        runner.register_default_runners()
+        _RUNNERS_REGISTERED = True
+    tmp = tempfile.mkdtemp(prefix="c03-")
+    try:
+        files, targets, rc, mc = build_tree(tmp, case)
+        t = track.Track(name="t", corpora=rc)
+        rng = random.Random(case["seed"])
+        total_docs = sum(d["docs"] for c in mc for d in c)
+        limit = 3 * (total_docs + 5) + 50
+        schedule, desc = build_schedule(case, rc, force_full=False)
+        groups, _, nworkers, aborted = execute_schedule(rng, t, schedule, case["hosts"], limit)
+        need_ref = any(d["kind"] == "bulk" and Fraction(d["pct"]) != 100 for d in desc.values())
+        ref_groups = None
+        if need_ref:
+            ref_schedule, _ = build_schedule(case, rc, force_full=True)
+            ref_groups, _, _, ref_aborted = execute_schedule(random.Random(case["seed"] + 1), t, ref_schedule, case["hosts"], limit)
+            aborted = aborted or ref_aborted
+        per_task_docs = collections.defaultdict(list)   # bulk task -> (action line or None, document line) over all its groups
+        per_task_idx = collections.defaultdict(list)
+        tags = set()
+        any_bulk = False
+        for key, grp in sorted(groups.items()):
+            d = desc[key[2]]
+            if d["kind"] != "bulk":
+                continue
+            # the corpora this task targets (BulkIndexParamSource.used_corpora: by name, without empty corpora)
+            cis = [ci for ci in range(len(mc)) if (d["corpus"] is None or d["corpus"] == ci) and sum(x["docs"] for x in mc[ci]) > 0]
+            mcorp = [[{k: x[k] for k in ("lines", "docs", "meta", "ds")} for x in mc[ci]] for ci in cis]
+            remap, j = {}, 0
+            for ci in cis:
+                for x in mc[ci]:
+                    remap[j] = x["fidx"]
+                    j += 1
+            mfiles = {j: files[f] for j, f in remap.items()}
+            mtargets = {j: targets[f] for j, f in remap.items()}
+            calls = [idx for idx, _ in grp["events"]]
+            m = ctx.model("bulk", "group", {"batch": d["batch"], "bulk": d["bulk"], "conflicts": "none", "pct": d["pct"], "looped": False,
+                                            "prob": None, "on_update": False, "recency": None, "corpora": mcorp,
+                                            "entries": grp["entries"], "calls": calls})
+            tags.update(m.get("tags", []))
+            if grp.get("crash"):
+                if m.get("err") != ZERO_DIV:
+                    ctx.diff("group-error", m, ZERO_DIV)
+                report_zero_division(ctx, {"group": list(key), "entries": grp["entries"], "calls": calls})
+                continue
+            if "err" in m:
+                ctx.diff("group-error", m, "no error")
+                continue
+            if grp["unfinished"]:
+                ctx.fail("does-not-stop", "clients still get bulks after 3x the corpus size", None, len(calls))
+            real = [(idx, p) for idx, p in grp["events"] if p is not None]
+            mout = m["r"]["out"]
+            if [i for i, _ in real] != [x[0] for x in mout]:
+                ctx.diff("who-gets-a-bulk", [x[0] for x in mout], [i for i, _ in real])
+            per_task_idx[key[2]].append(sorted(e[0] for e in grp["entries"]))
+            for k, (idx, p) in enumerate(real):
+                any_bulk = True
+                blines = split_body(p["body"])
+                if k < len(mout):
+                    mdocs, mitems = mout[k][1]
+                    dd = None if mdocs == p["bulk-size"] else f"bulk {k}: bulk-size model {mdocs}, impl {p['bulk-size']}"
+                    dd = dd or check_items(ctx, f"bulk {k}", mitems, blines, mfiles, mtargets)
+                    if dd:
+                        ctx.diff("bulk-body", dd, None)
+                if p["bulk-size"] > d["bulk"] or p["bulk-size"] <= 0:
+                    ctx.fail("bulk-over-size", "bulk-size outside (0, configured bulk size]", d["bulk"], p["bulk-size"])
+                if len(blines) != 2 * p["bulk-size"]:
+                    ctx.fail("pairing", "body is not bulk-size (action, document) pairs", 2 * p["bulk-size"], len(blines))
+                    continue
+                for q in range(0, len(blines), 2):
+                    per_task_docs[key[2]].append((blines[q] if b'"_id"' in blines[q] else None, blines[q + 1]))
+            # ingest percentage: exactly the first ceil(p%) of what the same group issues at 100 %
+            pctf = Fraction(d["pct"])
+            if pctf != 100 and not aborted:
+                ref = [p for _, p in ref_groups.get(key, {"events": []})["events"] if p is not None]
+                check_stop_count(ctx, ref, [p for _, p in real], pctf, True)
+        # every bulk task with full ingestion: every document of every targeted file exactly once over all its groups
+        for name, d in desc.items():
+            if d["kind"] != "bulk" or Fraction(d["pct"]) != 100 or aborted:
+                continue   # (an aborted race is reported above under its own class)
+            expected = []
+            for ci in range(len(mc)):
+                if d["corpus"] is None or d["corpus"] == ci:
+                    if sum(x["docs"] for x in mc[ci]) == 0:
+                        continue
+                    for x in mc[ci]:
+                        ls = files[x["fidx"]]
+                        expected += [(ls[2 * q], ls[2 * q + 1]) for q in range(x["docs"])] if x["meta"] else [(None, l) for l in ls]
+            got = per_task_docs.get(name, [])
+            if sorted(got, key=repr) != sorted(expected, key=repr):
+                cg, ce = collections.Counter(got), collections.Counter(expected)
+                ctx.fail("not-exactly-once", "multiset of (action, document) pairs over all bulks of a task differs from its corpora",
+                         {"corpus_docs": len(expected)}, {"emitted": len(got), "missing": sum((ce - cg).values()), "surplus": sum((cg - ce).values()),
+                                                          "task": name, "clients": d["clients"]})
+        overcommitted = any(el["parallel"] and el["clients"] is not None and el["clients"] < sum(x["clients"] for x in el["tasks"]) for el in case["schedule"])
+        ctx.count("race:workers=%d" % min(nworkers, 9))
+        ctx.count("race:overcommitted" if overcommitted else "race:not-overcommitted")
+        ctx.sig([sorted(tags), overcommitted, nworkers > 1, need_ref, len(case["schedule"]) > 1, aborted], nontrivial=any_bulk)
+    finally:
+        shutil.rmtree(tmp, ignore_errors=True)
+
+
 STREAMS = [
     Stream("arith", gen_arith, run_arith, quick=8000, thorough=400000, shards=8),
     Stream("files", gen_files, run_files, quick=640, thorough=12000, shards=16),
+    Stream("race", gen_race, run_race, quick=480, thorough=10000, shards=16),
     Stream("reader", gen_reader, run_reader, quick=1600, thorough=60000, shards=8),
     Stream("gen", gen_gen, run_gen, quick=3000, thorough=100000, shards=4),
     Stream("offsets", gen_offsets, run_offsets, quick=16, thorough=200, shards=8),
